@@ -173,9 +173,6 @@ def any_other_dependency_to_module_than(
                 ):
                     nodes_fulfilling_criteria.append(tuple(to_modules([parent, node])))
 
-                if parent not in nodes_to_exclude:
-                    nodes_to_check.append(parent)
-
     return nodes_fulfilling_criteria  # type: ignore
 
 
